@@ -21,6 +21,7 @@ type Mix struct {
 	FaultyMut                                                                       int // a Set/Delete during which one file read fails
 	FaultyFlush                                                                     int // a Flush during which one file write fails (outright or torn), optionally retried
 	VisitEvict                                                                      int // a key-only visit whose callback calls EvictSomeItems (as CopyTo does)
+	FaultyCopy                                                                      int // a CopyTo during which one read of the source file fails
 }
 
 // HistCfg describes how a history is generated.
@@ -189,7 +190,7 @@ func (h *Hist) Step() {
 	}
 	w := []int{mx.Set, mx.SetInvalid, mx.Delete, mx.Get, mx.GetItem, mx.Exist, mx.MinMax, mx.Totals, mx.Visit, mx.Iter, mx.Len,
 		mx.Flush, mx.Evict, mx.Reopen, mx.Snapshot, mx.SnapRead, mx.SnapClose, mx.SnapRevert, mx.SnapOfSnap, mx.SnapMutate,
-		mx.SetCollNew, mx.SetCollExisting, mx.RemoveColl, mx.GetColl, mx.FlushRevert, mx.CollWrite, mx.Close, mx.CopyTo, mx.PinVisit, mx.ResumeVisit, mx.FaultyMut, mx.FaultyFlush, mx.VisitEvict}
+		mx.SetCollNew, mx.SetCollExisting, mx.RemoveColl, mx.GetColl, mx.FlushRevert, mx.CollWrite, mx.Close, mx.CopyTo, mx.PinVisit, mx.ResumeVisit, mx.FaultyMut, mx.FaultyFlush, mx.VisitEvict, mx.FaultyCopy}
 	name := h.liveName()
 	op := r.WeightedPick(w)
 	switch op {
@@ -458,6 +459,20 @@ func (h *Hist) Step() {
 		if ft.Fired {
 			h.Feat["failed-mutation"] = true
 			e.Stats["failed-mutations"]++
+		}
+	case 33: // a CopyTo that fails on a read of its source
+		if e.F == nil {
+			return
+		}
+		ft := &vfile.Fault{Nth: r.Range(1, 30), Partial: -1}
+		e.Fault = ft
+		e.F.Arm(ft)
+		e.CopyTo(-1, r.Range(-1, 3))
+		e.F.Disarm()
+		e.Fault = nil
+		if ft.Fired {
+			h.Feat["failed-copy"] = true
+			e.Stats["failed-copies"]++
 		}
 	case 32: // the visitor evicts while the visit is in progress (re-entrancy from the mutator goroutine)
 		if name == "" {
